@@ -50,7 +50,7 @@ def ensure_dump(crate, debug_assertions=False):
             return mir, coro, info
         t0 = time.time()
         tmp = out + '.tmp'; shutil.rmtree(tmp, ignore_errors=True); os.makedirs(os.path.join(tmp, 'dump'))
-        env = dict(os.environ, CARGO_INCREMENTAL='0', CARGO_NET_OFFLINE='true', CARGO_TARGET_DIR=os.path.join(CACHE, 'target'),
+        env = dict(os.environ, CARGO_INCREMENTAL='0', CARGO_NET_OFFLINE='true', CARGO_TARGET_DIR=os.path.join(CACHE, 'target' if os.path.realpath(REPO) == '/repo' else 'target-' + hashlib.sha256(os.path.realpath(REPO).encode()).hexdigest()[:10]),
                    RUSTUP_TOOLCHAIN='nightly', CARGO_TERM_COLOR='never')
         env.pop('RUSTFLAGS', None)
         cmd = ['cargo', 'rustc', '--offline', '-p', crate, '--lib', '--', '--cfg', f'verif_nonce_{hsh}{int(time.time())}',
